@@ -149,6 +149,9 @@ type pki struct {
 	nb, na                                     map[string]int64
 	client                                     tls.Certificate
 	now                                        time.Time
+	// one server configuration per (identity, address, protocol range, client-auth mode), kept for the whole run:
+	// the servers are long-running instances (their session-ticket keys persist between the calls of different signers)
+	tlsCache map[string]*tls.Config
 }
 
 func (p *pki) leaf(id identity, ipIdx int) (tls.Certificate, int64, int64) {
@@ -248,7 +251,16 @@ func (p *pki) server(s srvSpec, ipIdx int) (string, casim.Mode) {
 	if s.id == idPlain {
 		return g, casim.Mode{Plain: true}
 	}
-	return g, casim.Mode{TLS: casim.ServerTLS(leaf, v.min, v.max, a.mode, clientCAs)}
+	key := fmt.Sprintf("%d/%d/%d/%d", s.id, ipIdx, s.vr, s.auth)
+	if p.tlsCache == nil {
+		p.tlsCache = map[string]*tls.Config{}
+	}
+	cfg, ok := p.tlsCache[key]
+	if !ok {
+		cfg = casim.ServerTLS(leaf, v.min, v.max, a.mode, clientCAs)
+		p.tlsCache[key] = cfg
+	}
+	return g, casim.Mode{TLS: cfg}
 }
 
 type harness struct {
@@ -497,6 +509,18 @@ func run(c *core.Ctx) {
 			s := srvSpec{identity(r.Intn(int(nIdentities))), r.Intn(len(vranges)), r.Intn(len(authModes))}
 			runPattern("mixed", bundleKind(r.Intn(nBundles)), s, patterns[r.Intn(len(patterns))])
 		}
+	}
+	// long-running servers and several signers in one process: a signer whose bundle covers a server talks to it
+	// first, then a signer whose bundle does not cover it is pointed at the very same server instance
+	for i, n := 0, c.N(6, 40); i < n; i++ {
+		ip := r.Intn(len(ips))
+		other := (ip + 1 + r.Intn(len(ips)-1)) % len(ips)
+		sB := srvSpec{idByB, core.Pick(r, 1, 3, 4), core.Pick(r, 0, 1, 2)}
+		h.runCase("same-server-after-another-signer/covering-bundle-first", core.Pick(r, bundleKind(1), bundleKind(2)), []int{ip}, []srvSpec{sB})
+		h.runCase("same-server-after-another-signer/foreign-bundle", 0, []int{ip}, []srvSpec{sB})
+		h.runCase("same-server-after-another-signer/foreign-bundle-then-genuine", 0, []int{ip, other}, []srvSpec{sB, genuine})
+		sSys := srvSpec{idByA, 3, 1}
+		h.runCase("same-server-after-another-signer/covering-bundle-first", 0, []int{other}, []srvSpec{sSys})
 	}
 	// lists made of several different impostors, with or without a genuine endpoint at the end
 	for i, n := 0, c.N(80, 600); i < n; i++ {
